@@ -2,9 +2,11 @@
    extracted inductive types; no Extract Constant / Extract Inductive of our own. *)
 From Coq Require Extraction.
 From Coq Require Import ExtrOcamlBasic.
-From Octo Require Import Base.Bytes Model.PacketWindow Model.Utf8 Model.Address.
+From Octo Require Import Base.Bytes Crypto.Prims Lib.Framed Model.PacketWindow Model.Utf8 Model.Address Model.NonceGen Model.SsChunk Model.SsTcp.
 Extraction Language OCaml.
 Extraction "model.ml"
   pw_new pw_validate pw_run spec_run pw_reset
   utf8_valid
-  s5_encode s5_length s5_try_decode_at s5_decode vm_write vm_read accept_addr.
+  s5_encode s5_length s5_try_decode_at s5_decode vm_write vm_read accept_addr
+  feed run inc counting_splice counting_next
+  codec_new ss_encode ss_decode server_decode.
